@@ -22,7 +22,6 @@
 
 import os
 import re
-import shlex
 import socket
 import subprocess
 
@@ -73,6 +72,63 @@ def _get_local_ips() -> Iterator[str]:
 
 class ConfigParseError(ValueError):
     """Configuration parsing exception"""
+
+
+def _split_args(line: str) -> List[str]:
+    """Split a config line into words the way OpenSSH does
+
+       Words are separated by blanks and may be quoted with single or
+       double quotes. A backslash only escapes a quote, another backslash
+       or, outside of quotes, a space; anywhere else it stands for itself.
+       A '#' at the beginning of a word starts a comment which extends to
+       the end of the line.
+
+    """
+
+    args: List[str] = []
+    i = 0
+    linelen = len(line)
+
+    while i < linelen:
+        if line[i] in ' \t':
+            i += 1
+            continue
+
+        if line[i] == '#':
+            break
+
+        arg = ''
+        quote = ''
+
+        while i < linelen:
+            ch = line[i]
+
+            if ch == '\\':
+                nextch = line[i+1:i+2]
+
+                if nextch and (nextch in '\'"\\' or
+                               (not quote and nextch == ' ')):
+                    i += 1
+                    arg += nextch
+                else:
+                    arg += ch
+            elif not quote and ch in ' \t':
+                break
+            elif not quote and ch in '\'"':
+                quote = ch
+            elif quote and ch == quote:
+                quote = ''
+            else:
+                arg += ch
+
+            i += 1
+
+        if quote:
+            raise ValueError('No closing quotation')
+
+        args.append(arg)
+
+    return args
 
 
 class SSHConfig:
@@ -415,7 +471,7 @@ class SSHConfig:
                     continue
 
                 try:
-                    split_args = shlex.split(line)
+                    split_args = _split_args(line)
                 except ValueError as exc:
                     self._error(str(exc))
 
